@@ -1,4 +1,7 @@
+#[cfg(not(kani))]
 use hashbrown::{HashMap, HashSet};
+#[cfg(kani)]
+use crate::verif_map::{HashMap, HashSet};
 use lazy_static::lazy_static;
 
 use crate::deserializer::DeserializationContext;
